@@ -8,5 +8,6 @@ Theorem hook_constants_match_source :
   /\ gen_change_vartype_wrapper_hook_inplace = model_change_vartype_wrapper_hook_inplace
   /\ gen_resolve_shares_record = model_resolve_shares_record
   /\ gen_copy_copies_record = model_copy_copies_record
+  /\ gen_relabel_pending_copies_mapping = model_relabel_pending_copies_mapping
   /\ gen_relabel_inplace_default = true /\ gen_change_vartype_inplace_default = true.
 Proof. repeat split; reflexivity. Qed.
